@@ -310,6 +310,7 @@ func checkC06(c *Ctx) {
 	codecEmittersUnconditional(c, "R06j")
 
 	c06NilSliceEncoded(c)
+	c06SliceAliasInLoop(c)
 
 	conv := c.P.Func(pkgOpenAPI, "Generator.convertField")
 	if conv == nil {
@@ -903,4 +904,112 @@ func c06NilSliceEncoded(c *Ctx) {
 		r.Bad("R06k", k, bad[k], "an empty list is encoded as null: the schema published for the field is `type: array` (and protojson writes [] for the same field), so the response does not validate against the document", nil)
 	}
 	r.OKd("R06k", "slices encoded by emitted MarshalJSON functions are created with make", "", map[string]any{"encoders": nEnc, "make_sites": nMake, "nil_declared_and_encoded": len(bad)})
+}
+
+// c06SliceAliasInLoop: R06l — a slice that is extended inside a loop must not start as a plain copy of a slice
+// variable declared outside the loop (`v := outer` … `v = append(v, x)`): when outer has spare capacity every
+// iteration writes into the same backing array and an earlier iteration's result (a `required` list already
+// stored in a schema) is overwritten by a later one.
+func c06SliceAliasInLoop(c *Ctx) {
+	r := c.R
+	r.Rule("R06l", "per-iteration slices (required lists, parameter lists) of the OpenAPI generator do not share a backing array with a slice from outside the loop", 1)
+	pk := c.P.Pkg(pkgOpenAPI)
+	if pk == nil {
+		r.Unres("R06l", pkgOpenAPI, "", "package not loaded")
+		return
+	}
+	info := pk.TypesInfo
+	nLoops, nCopies := 0, 0
+	for _, f := range pk.Syntax {
+		for _, d := range f.Decls {
+			fd, ok := d.(*ast.FuncDecl)
+			if !ok || fd.Body == nil {
+				continue
+			}
+			ast.Inspect(fd.Body, func(n ast.Node) bool {
+				var body *ast.BlockStmt
+				switch x := n.(type) {
+				case *ast.RangeStmt:
+					body = x.Body
+				case *ast.ForStmt:
+					body = x.Body
+				default:
+					return true
+				}
+				nLoops++
+				loopPos, loopEnd := n.Pos(), n.End()
+				// v := outer / var v = outer / v = outer inside the loop, outer a slice variable declared outside it
+				ast.Inspect(body, func(m ast.Node) bool {
+					as, ok := m.(*ast.AssignStmt)
+					if !ok || len(as.Lhs) != len(as.Rhs) {
+						return true
+					}
+					for i, rh := range as.Rhs {
+						rid, ok := ast.Unparen(rh).(*ast.Ident)
+						if !ok {
+							continue
+						}
+						robj := info.ObjectOf(rid)
+						if robj == nil || (robj.Pos() >= loopPos && robj.Pos() < loopEnd) {
+							continue
+						}
+						if _, isSlice := robj.Type().Underlying().(*types.Slice); !isSlice {
+							continue
+						}
+						lid, ok := as.Lhs[i].(*ast.Ident)
+						if !ok {
+							continue
+						}
+						lobj := info.ObjectOf(lid)
+						if lobj == nil {
+							continue
+						}
+						nCopies++
+						// is the copy appended to (v = append(v, …)) within the loop?
+						appended := false
+						ast.Inspect(body, func(k ast.Node) bool {
+							if call, ok := k.(*ast.CallExpr); ok {
+								if fid, ok := call.Fun.(*ast.Ident); ok && fid.Name == "append" && len(call.Args) > 0 {
+									if aid, ok := ast.Unparen(call.Args[0]).(*ast.Ident); ok && info.ObjectOf(aid) == lobj {
+										appended = true
+									}
+								}
+							}
+							return true
+						})
+						// the outer slice can only have spare capacity if it was itself grown with append (or made with a capacity)
+						grown := false
+						ast.Inspect(fd.Body, func(k ast.Node) bool {
+							if call, ok := k.(*ast.CallExpr); ok {
+								if fid, ok := call.Fun.(*ast.Ident); ok && len(call.Args) > 0 {
+									if aid, ok := ast.Unparen(call.Args[0]).(*ast.Ident); ok && fid.Name == "append" && info.ObjectOf(aid) == robj {
+										grown = true
+									}
+								}
+							}
+							if as2, ok := k.(*ast.AssignStmt); ok && len(as2.Rhs) == 1 {
+								if call, ok := as2.Rhs[0].(*ast.CallExpr); ok {
+									if fid, ok := call.Fun.(*ast.Ident); ok && fid.Name == "make" && len(call.Args) == 3 {
+										if l0, ok := as2.Lhs[0].(*ast.Ident); ok && info.ObjectOf(l0) == robj {
+											grown = true
+										}
+									}
+								}
+							}
+							return true
+						})
+						if _, isParam := robj.(*types.Var); isParam && robj.Parent() != nil && robj.Pos() < fd.Body.Pos() {
+							grown = true // a parameter: the caller may have left spare capacity
+						}
+						key := fmt.Sprintf("%s: %s starts as a copy of the outer slice %s", fd.Name.Name, lid.Name, rid.Name)
+						r.Check(!(appended && grown), "R06l", key, c.P.Pos(as.Pos()),
+							fmt.Sprintf("inside a loop %s is initialised with the slice header of %s (declared outside the loop) and then extended with append: iterations share %s's backing array, so the list stored by an earlier iteration is overwritten by a later one (with two required common fields the second variant's required child replaces the first's)", lid.Name, rid.Name, rid.Name))
+					}
+					return true
+				})
+				return true
+			})
+		}
+	}
+	r.OKd("R06l", "loops of internal/openapiv3 inspected for slice headers copied from outside and appended to", "", map[string]any{"loops": nLoops, "outer_slice_copies": nCopies})
 }
